@@ -151,7 +151,20 @@ PLAN15 = {
  'WFG-m1': ('G', ['C10']), 'WFG-m2': ('G', ['C10']),
  'WFH-m1': ('H', ['C07']), 'WFH-m2': ('H', ['C07']),
 }
+PLAN16 = {
+ 'WGA-m1': ('A', ['C01']), 'WGA-m2': ('A', ['C01']),
+ 'WGB-m1': ('B', ['C10']), 'WGB-m2': ('B', ['C10']),
+ 'WGC-m1': ('C', ['C02']), 'WGC-m2': ('C', ['C02']),
+ 'WGD-m1': ('D', ['C09']), 'WGD-m2': ('D', ['C09']),
+ 'WGE-m1': ('E', ['C19']), 'WGE-m2': ('E', ['C19']),
+ 'WGF-m1': ('F', ['C03']), 'WGF-m2': ('F', ['C03']),
+ 'WGG-m1': ('G', ['C20']), 'WGG-m2': ('G', ['C20']),
+ 'WGH-m1': ('H', ['C05']), 'WGH-m2': ('H', ['C05']),
+}
 SRC = {}
+for k, (d, checks) in PLAN16.items():
+    PLAN[k] = checks
+    SRC[k] = f'/tmp/mut16-{d}/out/{k.split("-")[1]}'
 for k, (d, checks) in PLAN15.items():
     PLAN[k] = checks
     SRC[k] = f'/tmp/mut15-{d}/out/{k.split("-")[1]}'
